@@ -169,6 +169,9 @@ def attribute(tokeniser: 'Tokeniser') -> GenericAttribute:
     if end != ']':
         raise ValueError("invalid attribute format - missing closing ']'\n  Format: [ 0xCODE 0xFLAG 0xDATA ]")
 
+    if code_int > _SIZE_B or flag_int > _SIZE_B:
+        raise ValueError('invalid attribute code or flag\n  Each is a single octet (0x00 to 0xFF)')
+
     return GenericAttribute.make_generic(code_int, flag_int, data_bytes)
 
     # for ((ID,flag),klass) in Attribute.registered_attributes.items():
